@@ -40,6 +40,10 @@ func NewGen(r *rand.Rand) *Gen {
 	g.state["exp"] = int64(r.Intn(5))
 	g.state["boom"] = int64(0)
 	g.state["r"] = int64(0)
+	g.state["pick"] = int64(r.Intn(NumItems+2) - 2)
+	if g.state["pick"].(int64) < 0 {
+		g.state["pick"] = int64(-1)
+	}
 	g.init = make(map[string]interface{}, len(g.state))
 	for k, v := range g.state {
 		g.init[k] = v // values are immutable snapshots
@@ -241,7 +245,7 @@ func (g *Gen) NextOp(prefer []string) int {
 	if len(prefer) > 0 && g.r.Intn(4) != 0 {
 		name = prefer[g.r.Intn(len(prefer))]
 	} else {
-		all := []string{"n", "s", "obj", "items", "kids:0", "kids:1", "plain", "nums", "grid", "ku", "pu", "kulist", "ulist", "slow", "exp", "r",
+		all := []string{"n", "s", "obj", "items", "kids:0", "kids:1", "plain", "nums", "grid", "ku", "pu", "kulist", "ulist", "slow", "exp", "r", "pick",
 			fmt.Sprintf("item:%d", g.r.Intn(NumItems))}
 		name = all[g.r.Intn(len(all))]
 	}
@@ -261,6 +265,12 @@ func (g *Gen) OpOn(name string) int {
 			nv = old // a write that changes nothing
 		} else {
 			nv = old.(int64) + 1 + int64(g.r.Intn(2))
+		}
+	case name == "pick":
+		if old.(int64) >= 0 && g.r.Intn(2) == 0 {
+			nv = int64(-1)
+		} else {
+			nv = int64(g.r.Intn(NumItems))
 		}
 	case name == "s":
 		nv = g.strp()
@@ -437,6 +447,54 @@ func (g *Gen) OpOn(name string) int {
 	return g.AddOp(Op{Cell: name, Val: nv})
 }
 
+// LeaveReturn generates the four writes "an object leaves the result, its
+// data changes, it comes back, its data changes again" for one item, either
+// as an element of the keyed list `items` or as the nullable object `pick`.
+// It returns the op indices and the cells involved.
+func (g *Gen) LeaveReturn() ([]int, []string) {
+	var ops []int
+	bump := func(id int64) int {
+		name := fmt.Sprintf("item:%d", id)
+		iv := g.state[name].(ItemVal)
+		iv.W += 10
+		return g.AddOp(Op{Cell: name, Val: iv})
+	}
+	if g.r.Intn(2) == 0 {
+		ids := g.state["items"].([]int64)
+		if len(ids) == 0 {
+			ids = []int64{int64(g.r.Intn(NumItems))}
+			ops = append(ops, g.AddOp(Op{Cell: "items", Val: ids}))
+		}
+		x := ids[g.r.Intn(len(ids))]
+		var without []int64
+		for _, y := range ids {
+			if y != x {
+				without = append(without, y)
+			}
+		}
+		if without == nil {
+			without = []int64{}
+		}
+		ops = append(ops, g.AddOp(Op{Cell: "items", Val: without}))
+		ops = append(ops, bump(x))
+		i := g.r.Intn(len(without) + 1)
+		back := append(append(append([]int64{}, without[:i]...), x), without[i:]...)
+		ops = append(ops, g.AddOp(Op{Cell: "items", Val: back}))
+		ops = append(ops, bump(x))
+		return ops, []string{"items", fmt.Sprintf("item:%d", x)}
+	}
+	x := g.state["pick"].(int64)
+	if x < 0 {
+		x = int64(g.r.Intn(NumItems))
+		ops = append(ops, g.AddOp(Op{Cell: "pick", Val: x}))
+	}
+	ops = append(ops, g.AddOp(Op{Cell: "pick", Val: int64(-1)}))
+	ops = append(ops, bump(x))
+	ops = append(ops, g.AddOp(Op{Cell: "pick", Val: x}))
+	ops = append(ops, bump(x))
+	return ops, []string{"pick", fmt.Sprintf("item:%d", x)}
+}
+
 // QueryOpts selects optional fields.
 type QueryOpts struct {
 	Boom bool // may select the failing field
@@ -468,7 +526,11 @@ func (g *Gen) GenQuery(tag string, o QueryOpts) (string, []string) {
 			return fld{"obj { " + strings.Join(subs[:1+r.Intn(len(subs))], " ") + " }", []string{"obj"}}
 		},
 		func() fld {
-			switch r.Intn(4) {
+			switch r.Intn(6) {
+			case 4:
+				return fld{"items { id cost }", append([]string{"items"}, itemCells()...)}
+			case 5:
+				return fld{"items { id cost kids { id cost } }", append([]string{"items", "kids:0", "kids:1"}, itemCells()...)}
 			case 0:
 				return fld{"items { id }", []string{"items"}}
 			case 1:
@@ -478,6 +540,12 @@ func (g *Gen) GenQuery(tag string, o QueryOpts) (string, []string) {
 			default:
 				return fld{"items { name kids { id kids { id } } }", append([]string{"items", "kids:0", "kids:1"}, itemCells()...)}
 			}
+		},
+		func() fld {
+			if r.Intn(3) == 0 {
+				return fld{"pick { id name }", append([]string{"pick"}, itemCells()...)}
+			}
+			return fld{"pick { id cost }", append([]string{"pick"}, itemCells()...)}
 		},
 		func() fld { return fld{"plain { x y }", []string{"plain"}} },
 		func() fld { return fld{"nums", []string{"nums"}} },
